@@ -49,6 +49,25 @@ class C01(EvalCheck):
                 t = gen_table(rng, ndim=rng.choice([2, 2, 3, 3, 4, 5]), max_coefs=6000, pattern=rng.choice(["c2", "c3"]),
                               knot_style=rng.choice(["multi", "multi", "clamped"]), coef_style=rng.choice(["rand", "posneg"]), maxextra=5)
                 classes = ["repknot"] * 4 + ["knot", "mid", "rand", "full_hi"]
+            elif ti % 10 == 5:
+                # twin / near-twin neighbouring dimensions (same order and knot count; knots identical, or differing in all but the
+                # first knot, or only in the last) evaluated at equal coordinates: anything cached or shared between dimensions
+                t = gen_table(rng, ndim=rng.choice([2, 3, 3, 4]), max_coefs=6000, pattern="const", coef_style=rng.choice(["rand", "posneg"]), maxextra=4)
+                d = rng.below(t.ndim - 1)
+                kind = rng.choice(["same", "first-only", "all-but-last"])
+                k0 = list(t.knots[d])
+                if kind == "same":
+                    k1 = list(k0)
+                elif kind == "first-only":
+                    k1 = [k0[0]] + [v + (i + 1) * 0.125 * (abs(k0[-1] - k0[0]) / len(k0) + 1e-3) for i, v in enumerate(k0[1:])]
+                else:
+                    k1 = k0[:-1] + [k0[-1] + abs(k0[-1] - k0[0]) * 0.5 + 1e-3]
+                t.knots[d + 1] = k1; t.orders[d + 1] = t.orders[d]
+                t.nknots = [len(k) for k in t.knots]; t.naxes = [len(k) - o - 1 for k, o in zip(t.knots, t.orders)]
+                nco = 1
+                for na in t.naxes: nco *= na
+                t.coefs = [to_f32(rng.unit() * 10 - 5) for _ in range(nco)]
+                twin = d
             elif ti % 10 == 7:
                 # a long axis (dozens to hundreds of spans: lookups that take many bisection steps, or any shortcut for long
                 # axes) in a 1-d or 2-d table, with the knot layouts where a wrong span shows: order 0 or multiple knots
@@ -70,6 +89,8 @@ class C01(EvalCheck):
             qs = []
             for qi in range(8):
                 xs, cl = gen_point(rng, t, classes)
+                if ti % 10 == 5 and qi % 2 == 0 and in_range(t, twin + 1, xs[twin]):
+                    xs[twin + 1] = xs[twin]           # the same coordinate along both twins
                 qs.append((xs, self.MASKS(t, rng), self.KS(t, rng), ["exact"] if small else [], cl))
             cases.append((t, qs))
         return cases
